@@ -196,6 +196,13 @@ class Engine:
             return SeqV(desc[0].upper(), fresh(name, SeqV.SORT[desc[0].upper()]))
         if desc in ('alist', 'rlist', 'ilist'):
             return SeqV(desc[0].upper(), fresh(name, SeqV.SORT[desc[0].upper()]), True)
+        if desc.startswith('imap:'):
+            # dict keyed by range(n): LSH hyperplanes ('imap:mat') and hash tables ('imap:hashtab')
+            vk = desc.split(':')[1]
+            n = fresh(name + '_n', Int)
+            st.assume(n >= 0)
+            sort = {'mat': z3.ArraySort(Int, Mat), 'hashtab': z3.ArraySort(Int, z3.ArraySort(Real, ISeq))}[vk]
+            return st.alloc(IMapO(n, fresh(name + '_vals', sort), vk), fresh=False)
         if desc == 'mat':
             return MatV(fresh(name, Mat))
         if desc in ('opaque', 'str', 'callable', 'optstr', 'optopaque'):
